@@ -15,7 +15,8 @@ from tools import sim, vlib  # noqa: E402
 CASES = [{"k": "exh", "prog": "batch_total", "a": [1], "b": []},
          {"k": "exh", "prog": "batch_noorder", "a": [1], "b": []},
          {"k": "exh", "prog": "two_ticks", "a": [1], "b": [2]},
-         {"k": "exh", "prog": "two_hooks", "a": [1], "b": [2]}]
+         {"k": "exh", "prog": "two_hooks", "a": [1], "b": [2]},
+         {"k": "exh", "prog": "atomic_keyed", "a": [7, 5], "b": []}]
 
 
 def main():
